@@ -100,3 +100,10 @@ def xtensor(ex, name="t", kind="real"):
     TH = Array(f"{name}!X{next(ex.fresh)}", IntSort(), RealSort())
     X = Axis("X", Int(f"X!{next(ex.fresh)}"))
     return T((X,), lambda x: TH[toI(x)], kind=kind, prov="param:" + name), TH, X
+
+
+def multi_path_meta(outs):
+    """harness convenience, not a property: several non-raising paths where the sidecar expects one merged path make the obligations
+    of that function undecided (never a violation)"""
+    n = sum(1 for o in outs if not o.raised)
+    return {"engine_error": f"{n} non-raising paths (the sidecar expects one merged path)"} if n > 1 else {}
